@@ -30,6 +30,9 @@ class _LineInterp(Interp):
             self.parsed.append(copy.deepcopy(self.self_attrs.get("statement")))
             if self.track_lexer:
                 self.lexer_at_parse.append(dict(self.lexer.__dict__))
+                # the parse leaves the flags in whatever state the statement put them
+                for k in list(self.lexer.__dict__):
+                    setattr(self.lexer, k, LineMachine.DIRTY)
             return None
         if name == "set_default_flags_in_lexer" and not self.track_lexer:
             return None
